@@ -97,7 +97,7 @@ def vh_gen(work, vh, family, seed, tier, name=None, timeout=1800, extra=()):
 
 _RE_STATES = re.compile(r"(\d+) states generated, (\d+) distinct states found, (\d+) states left on queue")
 _RE_INV = re.compile(r"Invariant (\S+) is violated")
-_RE_PROP = re.compile(r"(Temporal properties were violated|Action property (\S+) is violated|Error: .*)")
+_RE_PROP = re.compile(r"(Temporal properties were violated|Action property (\S+) is violated)")
 
 
 def stage_spec(work):
@@ -203,10 +203,15 @@ def load_findings():
     return out
 
 
+_replay_n = 0
+
+
 def write_replay(prop, seed, lines, suffix="ndjson"):
     d = os.path.join(VERIF, "replays")
     os.makedirs(d, exist_ok=True)
-    p = os.path.join(d, "%s-seed%s-%d.%s" % (prop, seed, int(time.time()), suffix))
+    global _replay_n
+    _replay_n += 1
+    p = os.path.join(d, "%s-seed%s-%d-%d.%s" % (prop, seed, int(time.time()), _replay_n, suffix))
     with open(p, "w") as f:
         for ln in lines:
             f.write(ln.rstrip("\n") + "\n")
